@@ -66,6 +66,11 @@ CHECKS: dict[str, dict] = {
         technique="exhaustive enumeration of datagram sequences (valid, truncated at every offset, extra byte, concatenated, empty) over the real DatagramProtocol and four real endpoint/client implementations on fake datagram sockets, each datagram compared with a fresh-object reference decode",
         text="Every serializer importable here (plus pickle with a restricted unpickler): packets round-trip through one datagram; for all datagram sequences up to the bound each datagram yields exactly one result that depends on that datagram alone; k sends produce exactly k datagrams equal to make_datagram(p); nothing is carried over between receives, on blocking and asynchronous endpoints and UDP clients.",
     ),
+    "C12": dict(
+        cat="exploration", ref="DESIGN.md §3 C12", engine="E2 vloop + mc/envsched.py + BFS over the real FairLock",
+        technique="stateless schedule enumeration of N concurrent senders on the real asyncio client over a tiny fake pipe (peer drain steps placed at loop-iteration boundaries, deviation-bounded) plus explicit-state BFS to a fixpoint over the real FairLock",
+        text="Every explored interleaving of 2-3 concurrent send_packet calls (three chunks per packet, transport suspending at arbitrary points) leaves a wire that parses into exactly the multiset of sent packets, each contiguous, per-sender order kept, every call succeeding; on the raw endpoint the loser gets BusyResourceError and the wire stays intact; every reachable FairLock state satisfies mutual exclusion, FIFO hand-off and no lost wake-up.",
+    ),
 }
 
 NOT_YET: dict[str, str] = {}
